@@ -15,6 +15,8 @@ import PybtexModel.Lemmas.Interp
 import PybtexModel.Props.C12
 import PybtexModel.Props.C11
 import PybtexModel.Props.C19
+import PybtexModel.Props.C05
+import PybtexModel.Props.C14
 
 namespace Pybtex.Props
 open Pybtex Pybtex.Interp Pybtex.BstSem
@@ -336,28 +338,48 @@ theorem C03_builtin_chr_to_int (f : Nat) (s : St) (r : List Val) :
     | _ :: _ :: _, _ => rfl
   | _ => rfl
 
-/-- `int.to.chr$`: the one-character string with that code point for `0 ≤ n < 0x110000`; outside
-this range a `BibTeXError` (Python's `ValueError` of `chr`), except that an integer that does not
-fit a C `int` is an `OverflowError` (not a pybtex error) -/
+/-- `int.to.chr$`: the one-character string with that code point for `0 ≤ n < 0x110000` outside the
+surrogate block (the character pushed really has the code point `n`); outside `0 ≤ n < 0x110000`
+a `BibTeXError` (Python's `ValueError` of `chr`), except that an integer that does not fit a C
+`int` is an `OverflowError` (not a pybtex error).  For a surrogate code point (0xD800–0xDFFF)
+Python's `chr` returns a lone surrogate, which a Lean `Char` cannot hold: the model stops with an
+internal error marked `unmodelled:` — it never gives another character instead. -/
 theorem C03_builtin_int_to_chr (f : Nat) (s : St) (n : Int) (r : List Val) :
-    (0 ≤ n ∧ n < 0x110000 → runBuiltin (f+1) .intToChr { s with stack := .int n :: r } =
-        .ok { s with stack := .str [Char.ofNat n.toNat] :: r }) ∧
+    (0 ≤ n ∧ n < 0x110000 → ¬ (0xD800 ≤ n ∧ n ≤ 0xDFFF) →
+        runBuiltin (f+1) .intToChr { s with stack := .int n :: r } =
+          .ok { s with stack := .str [Char.ofNat n.toNat] :: r } ∧
+        ((Char.ofNat n.toNat).toNat : Int) = n) ∧
+    (0xD800 ≤ n ∧ n ≤ 0xDFFF →
+        runBuiltin (f+1) .intToChr { s with stack := .int n :: r } =
+          .error (.internal "unmodelled: chr() of a surrogate code point")) ∧
     (¬ (0 ≤ n ∧ n < 0x110000) → -2147483648 ≤ n ∧ n ≤ 2147483647 →
         runBuiltin (f+1) .intToChr { s with stack := .int n :: r } = .error (.bibtex "passed to int.to.chr$")) ∧
     (n < -2147483648 ∨ 2147483647 < n →
         ∃ e, runBuiltin (f+1) .intToChr { s with stack := .int n :: r } = .error (.internal e)) ∧
     runBuiltin (f+1) .intToChr { s with stack := [] } = emptyStack ∧
     (∀ v, isInt v = false → ∃ e, runBuiltin (f+1) .intToChr { s with stack := v :: r } = .error (.internal e)) := by
-  refine ⟨?_, ?_, ?_, rfl, ?_⟩
+  refine ⟨?_, ?_, ?_, ?_, rfl, ?_⟩
+  · intro h hs
+    constructor
+    · show (if 0xD800 ≤ n ∧ n ≤ 0xDFFF then _ else if 0 ≤ n ∧ n < 0x110000 then _ else _) = _
+      rw [if_neg hs, if_pos h]; rfl
+    · have hv : n.toNat.isValidChar := by
+        unfold Nat.isValidChar
+        omega
+      rw [Char.ofNat, dif_pos hv]
+      show ((n.toNat : Nat) : Int) = n
+      omega
   · intro h
-    show (if 0 ≤ n ∧ n < 0x110000 then _ else _) = _
-    rw [if_pos h]; rfl
+    show (if 0xD800 ≤ n ∧ n ≤ 0xDFFF then _ else _) = _
+    rw [if_pos h]
   · intro h hc
-    show (if 0 ≤ n ∧ n < 0x110000 then _ else if n < -2147483648 ∨ 2147483647 < n then _ else _) = _
-    rw [if_neg h, if_neg (by omega)]
+    show (if 0xD800 ≤ n ∧ n ≤ 0xDFFF then _ else if 0 ≤ n ∧ n < 0x110000 then _ else
+      if n < -2147483648 ∨ 2147483647 < n then _ else _) = _
+    rw [if_neg (by omega), if_neg h, if_neg (by omega)]
   · intro h
-    show ∃ e, (if 0 ≤ n ∧ n < 0x110000 then _ else if n < -2147483648 ∨ 2147483647 < n then _ else _) = _
-    rw [if_neg (by omega), if_pos h]; exact ⟨_, rfl⟩
+    show ∃ e, (if 0xD800 ≤ n ∧ n ≤ 0xDFFF then _ else if 0 ≤ n ∧ n < 0x110000 then _ else
+      if n < -2147483648 ∨ 2147483647 < n then _ else _) = _
+    rw [if_neg (by omega), if_neg (by omega), if_pos h]; exact ⟨_, rfl⟩
   · ill1
 
 /-- `int.to.str$`: the decimal representation (`-` sign for negative numbers); Python's `str()` of
@@ -390,9 +412,11 @@ theorem C03_builtin_cite_type_preamble (f : Nat) (s : St) (k : Str) (e : Pybtex.
 
 /-! ### output -/
 
-/-- `write$` appends its operand to the output buffer (nothing is emitted yet) -/
+/-- `write$` appends its operand to the output buffer (nothing is emitted yet); the call is
+recorded as the event `write x` in the trace of output calls -/
 theorem C03_builtin_write (f : Nat) (s : St) (v : Val) (x : Str) (r : List Val) (hx : valToStr v = some x) :
-    runBuiltin (f+1) .write { s with stack := v :: r } = .ok { s with stack := r, buffer := s.buffer ++ [x] } ∧
+    runBuiltin (f+1) .write { s with stack := v :: r } =
+      .ok { s with stack := r, buffer := s.buffer ++ [x], trace := s.trace ++ [.write x] } ∧
     runBuiltin (f+1) .write { s with stack := [] } = emptyStack ∧
     (∀ v, isStr v = false → ∃ e, runBuiltin (f+1) .write { s with stack := v :: r } = .error (.internal e)) := by
   refine ⟨?_, rfl, ?_⟩
@@ -400,10 +424,12 @@ theorem C03_builtin_write (f : Nat) (s : St) (v : Val) (x : Str) (r : List Val) 
   · ill1
 
 /-- `newline$` emits the buffered text, wrapped (C19: `wrap(·, 79, "  ")`), and a line feed, and
-clears the buffer; the stack is not touched -/
+clears the buffer; the stack is not touched; the call is recorded as the event `newline` in the
+trace of output calls -/
 theorem C03_builtin_newline (f : Nat) (s : St) :
     runBuiltin (f+1) .newline s =
-      .ok { s with lines := s.lines ++ [Wrap.wrapDefault s.buffer.flatten, ['\n']], buffer := [] } := rfl
+      .ok { s with lines := s.lines ++ [Wrap.wrapDefault s.buffer.flatten, ['\n']], buffer := [],
+                   trace := s.trace ++ [.newline] } := rfl
 
 /-- `warning$` reports its operand as a warning (an integer as its decimal text; the `repr` of a
 function or variable object is not modelled); `top$` pops and prints one value of any type;
@@ -874,7 +900,8 @@ theorem C03_builtin_format_name_spec_nonvacuous :
 
 /-- with C19: a buffered text of at most 79 characters is emitted as one line, right-stripped -/
 theorem C03_builtin_newline_short (f : Nat) (s : St) (h : (s.buffer.flatten.length : Int) ≤ 79) :
-    runBuiltin (f+1) .newline s = .ok { s with lines := s.lines ++ [rstrip s.buffer.flatten, ['\n']], buffer := [] } := by
+    runBuiltin (f+1) .newline s = .ok { s with lines := s.lines ++ [rstrip s.buffer.flatten, ['\n']], buffer := [],
+                                                trace := s.trace ++ [.newline] } := by
   rw [C03_builtin_newline]
   have := (C19_short_identity 79 [' ', ' '] s.buffer.flatten h).2
   unfold Wrap.wrapDefault
@@ -910,7 +937,7 @@ theorem C03_builtin_table (f : Nat) (s : St) (b : Builtin) (args res r : List Va
   | missingYes m => rfl
   | missingNo hv => exact (C03_builtin_missing f s r).2.1 _ hv
   | chrToInt c => rfl
-  | intToChr h0 h1 => exact (C03_builtin_int_to_chr f s _ r).1 ⟨h0, h1⟩
+  | intToChr h0 h1 hs => exact ((C03_builtin_int_to_chr f s _ r).1 ⟨h0, h1⟩ hs).1
   | intToStr n => rfl
   | substring start len hx => exact (C03_builtin_substring f s _ _ start len r hx).1
   | textLength hx hn => have := (C03_builtin_text_length f s _ _ r hx).1; rw [hn] at this; exact this
@@ -1045,8 +1072,9 @@ theorem C03_exec_variable (f : Nat) (s : St) :
   · intro k n hk hv; constructor <;> simp only [execObj, hk, hv, push]
   · intro k e db n hk hdb he; simp only [execObj, curEntry, hk, hdb, he, push]; rfl
 
-/-- `ITERATE {f}` is the left fold of "make the entry current; execute `f`" over the citation
-list in order (stopping at the first error); `f` is looked up once, before the first entry.
+/-- `ITERATE {f}` is the left fold of "make the entry current; execute `f`; no entry is current"
+over the citation list in order (stopping at the first error); `f` is looked up once, before the
+first entry.
 `Ready s`: the database has been read and holds the cited entries (`C03_ready`). -/
 theorem C03_iterate_order (fuel : Nat) (inp : Input) (c : Command) (s : St) (t : BTok) (ts : List BTok)
     (f : Str) (o : VarObj) (hc : upper c.name = "ITERATE".toList) (hg : c.groups = [t :: ts])
@@ -1243,25 +1271,27 @@ theorem C03_declare_macro (fuel : Nat) (inp : Input) (c : Command) (s : St) (n v
   ⟨runCommand_macro fuel inp c s n v ns vs name value hc hg hn hv, dget_dset_same _ _ _,
    fun _ hm => dget_dset_ne _ _ _ _ hm⟩
 
-/-- **Output.**  The `.bbl` text returned by `run` is the concatenation of the emitted lines;
-the lines and the buffer evolve only through output events (`write$` appends to the buffer,
-`newline$` emits the wrapped buffer and a line feed: `C03_builtin_write`, `C03_builtin_newline`),
-so the text is `render [] evs` for the sequence `evs` of output events of the run: each
-`newline$` contributes `wrap(text written since the previous newline$) ++ "\n"`, and what is
-written after the last `newline$` is discarded. -/
+/-- **Output.**  The `.bbl` text returned by `run` is the concatenation of the emitted lines, and
+it is `render [] s.trace` for the trace `s.trace` of the run: the list of the `write$` /
+`newline$` calls that were executed, in order, each `write$` with the text it was given
+(`C03_builtin_write` and `C03_builtin_newline` append exactly their own event, nothing else touches
+the trace: `C03_trace`).  So each `newline$` contributes `wrap(text written since the previous
+newline$) ++ "\n"`, and what is written after the last `newline$` is discarded. -/
 theorem C03_output (fuel : Nat) (prog : Program) (inp : Input) (out : Output) (h : run fuel prog inp = .ok out) :
-    ∃ s evs, runProgram fuel inp prog { vars := initVars, citations := inp.citations } = .ok s ∧
+    ∃ s, runProgram fuel inp prog { vars := initVars, citations := inp.citations } = .ok s ∧
       out.bbl = s.lines.flatten ∧ out.reports = s.reports ∧ out.printed = s.printed ∧
-      (s.lines, s.buffer) = evs.foldl emit ([], []) ∧
-      out.bbl = render [] evs := by
+      (s.lines, s.buffer) = s.trace.foldl emit ([], []) ∧
+      out.bbl = render [] s.trace := by
   unfold run at h
   split at h
   · cases h
   · rename_i s hs
     cases h
-    obtain ⟨⟨evs, he⟩, _, _⟩ := runProgram_frame fuel inp prog _ s hs
-    refine ⟨s, evs, hs, rfl, rfl, rfl, he, ?_⟩
-    have := render_spec evs [] []
+    obtain ⟨⟨evs, ht, he⟩, _, _⟩ := runProgram_frame fuel inp prog _ s hs
+    have ht' : s.trace = evs := by rw [ht]; rfl
+    subst ht'
+    refine ⟨s, hs, rfl, rfl, rfl, he, ?_⟩
+    have := render_spec s.trace [] []
     rw [← he] at this
     simpa using this
 
@@ -1279,7 +1309,7 @@ code leaves the emitted lines and the buffer as they are -/
 theorem C03_output_only_write_newline (f : Nat) (b : Builtin) (s s' : St)
     (hb : b ≠ .callType ∧ b ≠ .if_ ∧ b ≠ .while_ ∧ b ≠ .write ∧ b ≠ .newline)
     (h : runBuiltin (f+1) b s = .ok s') : s'.lines = s.lines ∧ s'.buffer = s.buffer :=
-  prim_sameOut f b s s' hb h
+  ⟨(prim_sameOut f b s s' hb h).1, (prim_sameOut f b s s' hb h).2.1⟩
 
 /-! ## Non-vacuity: concrete instances, by evaluation -/
 
@@ -1552,6 +1582,242 @@ theorem C03_output_nonvacuous :
 theorem C03_output_only_write_newline_nonvacuous :
     ((runBuiltin 1 .swap { stk [S "a", S "b"] with buffer := L ["p"], lines := L ["l"] }).toOption.map
       fun s => (s.lines, s.buffer)) = some (L ["l"], L ["p"]) := by
+  decide +kernel
+
+/-! ## 6. Second wave (review f): `READ`, the current entry outside `ITERATE`, the trace of output calls -/
+
+/-- **`READ`.**  The reader is started with the `MACRO` table of the style as its initial macros
+(`readerStart`: the table replaces the month names), without person fields and with the citation
+list as the wanted entries; `READ` then
+* makes the database `convertDb` of what the reader delivers (`readerResult`: the `.bib` texts
+  parsed one after the other by one reader — C01 —, or the entries of a `bib_format` reader),
+* replaces the citation list by `removeMissing (addExtraCitations citations min_crossrefs)` over
+  that database (C05: `*` expanded, cross-referenced parents appended, missing entries dropped),
+* sets `preamble$` to the concatenation of the `@preamble` texts,
+* appends the reader's problems, the bad cross-references and the missing entries to the reports,
+and changes nothing else. -/
+theorem C03_read_spec (fuel : Nat) (inp : Input) (c : Command) (s : St) (hc : upper c.name = "READ".toList) :
+    (readerStart s).macros = CIDict.ofPairs s.macros ∧ (readerStart s).roles = [] ∧
+    (readerStart s).db.wanted = some (CISet.ofList s.citations) ∧
+    ∃ s', runCommand fuel inp c s = .ok s' ∧
+      s'.db = some (convertDb (readerResult inp s).db) ∧
+      s'.citations = ((convertDb (readerResult inp s).db).removeMissing
+        ((convertDb (readerResult inp s).db).addExtraCitations s.citations inp.minCrossrefs).1).1 ∧
+      s'.preamble = (readerResult inp s).db.preamble.flatten ∧
+      s'.reports = s.reports ++ (readerResult inp s).errs.map Interp.Report.bib ++
+        ((convertDb (readerResult inp s).db).addExtraCitations s.citations inp.minCrossrefs).2.map Interp.Report.data ++
+        ((convertDb (readerResult inp s).db).removeMissing
+          ((convertDb (readerResult inp s).db).addExtraCitations s.citations inp.minCrossrefs).1).2.map Interp.Report.data ∧
+      s' = { s with db := s'.db, citations := s'.citations, preamble := s'.preamble, reports := s'.reports } :=
+  ⟨rfl, rfl, rfl, afterRead inp s, runCommand_read_eq fuel inp c s hc, rfl, rfl, rfl, rfl, rfl⟩
+
+/-- **`READ`, linked to C05 and C14.**  The database after `READ` is well formed (`DbWF`, the
+hypothesis of every C05 / C14 theorem) whatever the reader delivered; the citation list — the
+iteration order of `ITERATE` — is the resolution C05 specifies (`Spec.resolved`: the cited keys in
+citation order, first spelling wins, `*` replaced by the database keys in database order, then
+the cross-referenced parents in the order in which they reach `min_crossrefs`:
+`C05_crossref_spec`, `C05_cited_first_in_order`, `C05_wildcard_db_order`, `C05_threshold`) with
+the keys that have no entry left out (`Spec.present`); exactly the dangling cross-references and
+the missing keys are reported; and every key of the list has a well-formed entry stored under it,
+so that `C14_inherits_nearest`, `C14_missing_iff`, `C14_terminates` … apply to every field a
+style reads (`C03_exec_variable`: a field pushes `bstFieldValue db e name`, the C14 lookup). -/
+theorem C03_read_order (fuel : Nat) (inp : Input) (c : Command) (s s' : St) (hc : upper c.name = "READ".toList)
+    (h : runCommand fuel inp c s = .ok s') :
+    ∃ db, s'.db = some db ∧ DbWF db ∧
+      s'.citations = Spec.present db.toS (Spec.resolved db.toS s.citations inp.minCrossrefs) ∧
+      s'.reports = s.reports ++ (readerResult inp s).errs.map Interp.Report.bib ++
+        ((Spec.dangling db.toS (Spec.expanded db.toS s.citations)).map fun p =>
+          Interp.Report.data (Pybtex.Report.badCrossref p.1 p.2)) ++
+        ((Spec.missing db.toS (Spec.resolved db.toS s.citations inp.minCrossrefs)).map fun k =>
+          Interp.Report.data (Pybtex.Report.missingEntry k)) ∧
+      (∀ k ∈ s'.citations, ∃ e, db.entries.getItem k = some e ∧ EntryWF e ∧ lower e.key = lower k) := by
+  rw [runCommand_read_eq fuel inp c s hc] at h
+  cases h
+  have hw := convertDb_wf (readerResult inp s).db
+  have hx := C05_crossref_spec _ hw s.citations inp.minCrossrefs
+  have hm := removeMissing_spec hw (Spec.resolved (convertDb (readerResult inp s).db).toS s.citations inp.minCrossrefs)
+  refine ⟨_, rfl, hw, ?_, ?_, ?_⟩
+  · show ((convertDb _).removeMissing ((convertDb _).addExtraCitations _ _).1).1 = _
+    rw [hx]; exact hm.1
+  · show s.reports ++ _ ++ ((convertDb _).addExtraCitations _ _).2.map _ ++
+      ((convertDb _).removeMissing ((convertDb _).addExtraCitations _ _).1).2.map _ = _
+    rw [hx, hm.2, List.map_map, List.map_map]; rfl
+  · intro k hk
+    have hc' := removeMissing_contains _ _ k hk
+    cases he : (convertDb (readerResult inp s).db).entries.getItem k with
+    | none =>
+      have : (convertDb (readerResult inp s).db).entries.contains k = false := by
+        simp [CIDict.contains, CIDict.getItem, dhas] at he ⊢
+        exact he
+      rw [this] at hc'; cases hc'
+    | some e => exact ⟨e, rfl, getItem_entries_wf hw he⟩
+
+/-- executing `crossref` pushes the key of the cross-referenced entry as it is stored in the
+database (not the spelling in the `crossref` field), and a missing-field value when the entry has
+no `crossref` field or the target is not in the database -/
+theorem C03_exec_crossref (f : Nat) (s : St) (k : Str) (e : Pybtex.Entry) (db : BibData)
+    (hk : s.cur = some k) (hdb : s.db = some db) (he : db.entries.getItem k = some e) :
+    (∀ x p, e.fields.getItem "crossref".toList = some x → db.entries.getItem x = some p →
+      execObj (f+1) .crossref s = .ok { s with stack := .str p.key :: s.stack }) ∧
+    (e.fields.getItem "crossref".toList = none →
+      execObj (f+1) .crossref s = .ok { s with stack := .missing "crossref".toList :: s.stack }) ∧
+    (∀ x, e.fields.getItem "crossref".toList = some x → db.entries.getItem x = none →
+      execObj (f+1) .crossref s = .ok { s with stack := .missing "crossref".toList :: s.stack }) := by
+  refine ⟨?_, ?_, ?_⟩
+  · intro x p hx hp
+    have hx' : e.fields.getItem xrefName = some x := hx
+    simp only [execObj, curEntry, hk, hdb, he, push, bstCrossrefValue, hx', hp]
+  · intro hx
+    have hx' : e.fields.getItem xrefName = none := hx
+    simp only [execObj, curEntry, hk, hdb, he, push, bstCrossrefValue, hx']
+    rfl
+  · intro x hx hp
+    have hx' : e.fields.getItem xrefName = some x := hx
+    simp only [execObj, curEntry, hk, hdb, he, push, bstCrossrefValue, hx', hp]
+    rfl
+
+/-- **No entry is current outside `ITERATE` / `REVERSE`.**  A run starts without a current entry,
+and no command leaves one behind (`ITERATE` / `REVERSE` make each entry current only while the
+function runs for it): at every command boundary of a program `cur = none`.  So `EXECUTE {f}`
+executes `f` outside any entry, where everything that exists per entry is unavailable: `cite$`,
+`type$`, `call.type$`, fields, `crossref`, reading and assigning an entry variable all stop with a
+non-pybtex error (Python: `AttributeError`) — never with the data of some entry.
+(Follows the code with the proposed fix C03-1; before it the last entry of the preceding
+`ITERATE` stayed current.) -/
+theorem C03_execute_outside_entry (fuel : Nat) (inp : Input) :
+    (∀ prog out, run fuel prog inp = .ok out →
+      ∃ s, runProgram fuel inp prog { vars := initVars, citations := inp.citations } = .ok s ∧ s.cur = none) ∧
+    (∀ c s s', runCommand fuel inp c s = .ok s' → s.cur = none → s'.cur = none) ∧
+    (∀ (f : Nat) (s : St), s.cur = none →
+      (∃ w, runBuiltin (f+1) .cite s = .error (.internal w)) ∧
+      (∃ w, runBuiltin (f+1) .type_ s = .error (.internal w)) ∧
+      (∃ w, runBuiltin (f+1) .callType s = .error (.internal w)) ∧
+      (∀ n, (∃ w, execObj (f+1) (.field n) s = .error (.internal w)) ∧
+            (∃ w, execObj (f+1) (.eint n) s = .error (.internal w)) ∧
+            (∃ w, execObj (f+1) (.estr n) s = .error (.internal w))) ∧
+      (∃ w, execObj (f+1) .crossref s = .error (.internal w)) ∧
+      (∀ name n v r, (s.vars.getItem name = some (.eint n) ∨ s.vars.getItem name = some (.estr n)) →
+        ∃ w, runBuiltin (f+1) .assign { s with stack := .ref name :: v :: r } = .error (.internal w))) := by
+  refine ⟨?_, fun c s s' h hs => (runCommand_cur_out fuel inp c s s' h).1 hs, ?_⟩
+  · intro prog out h
+    unfold run at h
+    split at h
+    · cases h
+    · rename_i s hs
+      exact ⟨s, hs, runProgram_cur_none fuel inp prog _ s rfl hs⟩
+  · intro f s hs
+    refine ⟨?_, ?_, ?_, ?_, ?_, ?_⟩
+    · simp only [runBuiltin, hs]; exact ⟨_, rfl⟩
+    · simp only [runBuiltin, curEntry, hs]; exact ⟨_, rfl⟩
+    · simp only [runBuiltin, curEntry, hs]; exact ⟨_, rfl⟩
+    · intro n
+      refine ⟨?_, ?_, ?_⟩
+      · simp only [execObj, curEntry, hs]; exact ⟨_, rfl⟩
+      · simp only [execObj, hs]; exact ⟨_, rfl⟩
+      · simp only [execObj, hs]; exact ⟨_, rfl⟩
+    · simp only [execObj, curEntry, hs]; exact ⟨_, rfl⟩
+    · intro name n v r hv
+      rcases hv with hv | hv
+      · have hv' : ({ s with stack := r } : St).vars.getItem name = some (.eint n) := hv
+        simp only [runBuiltin, pop, hv']
+        cases v <;> (rw [hs]; exact ⟨_, rfl⟩)
+      · have hv' : ({ s with stack := r } : St).vars.getItem name = some (.estr n) := hv
+        simp only [runBuiltin, pop, hv']
+        cases v <;> (rw [hs]; exact ⟨_, rfl⟩)
+
+/-- **The trace of output calls.**  `St.trace` is the list of the `write$` / `newline$` calls
+executed so far: `write$` appends exactly the event `write x` for the text `x` it was given and
+`newline$` exactly the event `newline` (`C03_builtin_write`, `C03_builtin_newline`); no other
+built-in that does not execute code touches it; a command other than `EXECUTE` / `ITERATE` /
+`REVERSE` touches neither the trace nor the emitted lines nor the buffer; and whatever code is
+executed, the events it appends to the trace are what takes (lines, buffer) from the state before
+to the state after — `emit` event by event.  (`C03_output`: the `.bbl` text is `render [] trace`.) -/
+theorem C03_trace (n : Nat) :
+    (∀ (b : Builtin) (s s' : St), b ≠ .callType ∧ b ≠ .if_ ∧ b ≠ .while_ ∧ b ≠ .write ∧ b ≠ .newline →
+      runBuiltin (n+1) b s = .ok s' → s'.trace = s.trace) ∧
+    (∀ inp (c : Command) (s s' : St), runCommand n inp c s = .ok s' →
+      upper c.name ≠ "EXECUTE".toList → upper c.name ≠ "ITERATE".toList → upper c.name ≠ "REVERSE".toList →
+      s'.trace = s.trace ∧ s'.lines = s.lines ∧ s'.buffer = s.buffer) ∧
+    (∀ (t : BTok) (s s' : St), execTok n t s = .ok s' →
+      s.trace <+: s'.trace ∧
+      (s'.lines, s'.buffer) = (s'.trace.drop s.trace.length).foldl emit (s.lines, s.buffer)) ∧
+    (∀ inp (c : Command) (s s' : St), runCommand n inp c s = .ok s' →
+      s.trace <+: s'.trace ∧
+      (s'.lines, s'.buffer) = (s'.trace.drop s.trace.length).foldl emit (s.lines, s.buffer)) := by
+  refine ⟨fun b s s' hb h => (prim_sameOut n b s s' hb h).2.2, ?_, ?_, ?_⟩
+  · intro inp c s s' h h1 h2 h3
+    obtain ⟨a, b, c'⟩ := (runCommand_cur_out n inp c s s' h).2 h1 h2 h3
+    exact ⟨c', a, b⟩
+  · intro t s s' h
+    obtain ⟨evs, ht, he⟩ := ((exec_frame n).2.2.1 t s s' h).out
+    rw [ht, List.drop_left]
+    exact ⟨List.prefix_append _ _, he⟩
+  · intro inp c s s' h
+    obtain ⟨evs, ht, he⟩ := (runCommand_frame n inp c s s' h).out
+    rw [ht, List.drop_left]
+    exact ⟨List.prefix_append _ _, he⟩
+
+/-! ### non-vacuity of the second wave -/
+
+/-- a surrogate code point is an `unmodelled:` internal error, the code points next to the
+surrogate block give the character with that code point -/
+theorem C03_builtin_int_to_chr_nonvacuous :
+    (runBuiltin 1 .intToChr (stk [.int 55296])).toOption.isNone = true ∧
+    (match runBuiltin 1 .intToChr (stk [.int 55296]) with | .error (.internal _) => true | _ => false) = true ∧
+    top1 (runBuiltin 1 .intToChr (stk [.int 55295])) = some [Char.ofNat 55295] ∧
+    (Char.ofNat 55295).toNat = 55295 ∧
+    top1 (runBuiltin 1 .intToChr (stk [.int 57344])) = some [Char.ofNat 57344] ∧
+    (match runBuiltin 1 .intToChr (stk [.int 1114112]) with | .error (.bibtex _) => true | _ => false) = true := by
+  decide +kernel
+
+private def exBib2 : Input :=
+  { bibTexts := ["@string{s = \"S\"} @preamble{\"P\" # m} @misc{k1, title = m # s, crossref = {K2}}".toList,
+                 "@misc{k2, title = {T2}, note = m}".toList],
+    citations := ["k1".toList, "nokey".toList] }
+
+private def exRead : Except IErr St :=
+  runProgram 10 exBib2 [⟨"MACRO".toList, [[T "m"], [TS "M"]]⟩, ⟨"READ".toList, []⟩] { vars := initVars, citations := exBib2.citations }
+
+/-- two `.bib` texts read with the macro `m` of the style and a `@string` of the first file: the
+cited entry and (with `min_crossrefs = 1` it would be listed, here it is only kept) its parent are
+in the database, the missing key is reported and dropped, `preamble$` is the flattened preamble -/
+theorem C03_read_spec_nonvacuous :
+    (exRead.toOption.map fun s => (s.citations, s.preamble, s.reports.length)) = some (L ["k1"], "PM".toList, 1) ∧
+    (exRead.toOption.bind fun s => s.db.bind fun db => (db.entries.getItem "k1".toList).bind fun e =>
+      e.fields.getItem "title".toList) = some "MS".toList ∧
+    (exRead.toOption.bind fun s => s.db.bind fun db => (db.entries.getItem "K2".toList).bind fun e =>
+      e.fields.getItem "note".toList) = some "M".toList := by
+  decide +kernel
+
+theorem C03_read_order_nonvacuous :
+    (exRead.toOption.bind fun s => s.db.map fun db =>
+      (Spec.present db.toS (Spec.resolved db.toS exBib2.citations 2), Spec.missing db.toS (Spec.resolved db.toS exBib2.citations 2)))
+      = some (L ["k1"], L ["nokey"]) ∧
+    (exRead.toOption.bind fun s => s.db.map fun db => Spec.resolved db.toS exBib2.citations 1)
+      = some (L ["k1", "nokey", "k2"]) := by
+  decide +kernel
+
+/-- in the example database `k1` has no `crossref` field -/
+theorem C03_exec_crossref_nonvacuous :
+    top1 (execObj 1 .crossref { exSt with cur := some "k1".toList }) = some [] ∧
+    ((execObj 1 .crossref { exSt with cur := some "k1".toList }).toOption.map fun s => s.stack.length) = some 1 ∧
+    (exRead.toOption.bind fun s => top1 (execObj 1 .crossref { s with cur := some "k1".toList })) = some "k2".toList := by
+  decide +kernel
+
+/-- `ITERATE {article}` leaves no entry current; a following `EXECUTE {cite$}` stops with an
+internal error, `EXECUTE {quote$}` works -/
+theorem C03_execute_outside_entry_nonvacuous :
+    ((runCommand 100 exInp ⟨"ITERATE".toList, [[T "article"]]⟩ exSt).toOption.map (·.cur)) = some none ∧
+    (match runProgram 100 exInp [⟨"ITERATE".toList, [[T "article"]]⟩, ⟨"EXECUTE".toList, [[T "cite$"]]⟩] exSt with
+      | .error (.internal _) => true | _ => false) = true ∧
+    (runProgram 100 exInp [⟨"ITERATE".toList, [[T "article"]]⟩, ⟨"EXECUTE".toList, [[T "quote$"]]⟩] exSt).toOption.isSome = true := by
+  decide +kernel
+
+/-- the trace of the complete example style: `write$ "T"`, `newline$`, `write$ "lost"` -/
+theorem C03_trace_nonvacuous :
+    ((runProgram 100 exBib exProg { vars := initVars, citations := exBib.citations }).toOption.map (·.trace))
+      = some [.write "T".toList, .newline, .write "lost".toList] ∧
+    render [] [.write "T".toList, .newline, .write "lost".toList] = "T\n".toList := by
   decide +kernel
 
 end Pybtex.Props
